@@ -153,9 +153,9 @@ class NMAP(Application, discriminator="nmap"):
     @staticmethod
     def _explode_ip_address_network_array(
         target_ip_address: Union[IPV4Address, List[IPV4Address], IPv4Network, List[IPv4Network]]
-    ) -> Set[IPv4Address]:
+    ) -> List[IPv4Address]:
         """
-        Explode a mixed array of IP addresses and networks into a set of individual IP addresses.
+        Explode a mixed array of IP addresses and networks into the unique individual IP addresses.
 
         This method takes a combination of single and lists of IPv4 addresses and IPv4 networks, expands any networks
         into their constituent subnet useable IP addresses, and returns a set of unique IP addresses. Broadcast and
@@ -164,7 +164,7 @@ class NMAP(Application, discriminator="nmap"):
         :param target_ip_address: A single or list of IPv4 addresses and networks.
         :type target_ip_address: Union[IPV4Address, List[IPV4Address], IPv4Network, List[IPv4Network]]
         :return: A set of unique IPv4 addresses expanded from the input.
-        :rtype: Set[IPv4Address]
+        :rtype: List[IPv4Address]
         """
         if isinstance(target_ip_address, IPv4Address) or isinstance(target_ip_address, IPv4Network):
             target_ip_address = [target_ip_address]
@@ -178,7 +178,9 @@ class NMAP(Application, discriminator="nmap"):
                 ]
             else:
                 ip_addresses.append(ip_address)
-        return set(ip_addresses)
+        # unique addresses in the order they were given: iterating a set of IPv4Address objects would follow their
+        # string hashes, i.e. change from one interpreter process to the next
+        return list(dict.fromkeys(ip_addresses))
 
     @validate_call()
     def ping_scan(
